@@ -231,8 +231,28 @@ SCANS = {
 }
 
 
+def _pairs_unfiltered(ctx, R):
+    """for_pairs hands *every* ordered pair of distinct hosts to its callback: the call is control-dependent only on the iteration itself
+    and on the `first != second` test (for one-way operations (x, y) and (y, x) are different requests: a visited-set would drop one)"""
+    b = ctx.w.bodies.get("turmoil::for_pairs")
+    if not b:
+        return
+    ALLOWED = re.compile(r"Iterator>::next$|::next$|IntoIterator>::into_iter$|::into_iter$|::iter$|PartialEq.*::(ne|eq)$|Deref.*::deref$")
+    for bb, t in b.calls(re.compile(r"FnMut.*::call_mut$|Fn.*::call$")):
+        extra = set()
+        for sbb in control_switches(b, bb):
+            for a in Slicer(ctx.w).atoms(b, b.term(sbb)["d"]):
+                if a.startswith("call:") and not ALLOWED.search(a[5:]):
+                    extra.add(a[5:].rsplit("::", 2)[-2] + "::" + a.rsplit("::", 1)[1])
+        ctx.inst(R, "for_pairs:every-ordered-pair", not extra, t["s"], "the callback runs for every ordered pair of distinct hosts" if not extra else
+                 f"for_pairs calls its callback only when {sorted(extra)} allows it: with overlapping host sets an ordered pair is skipped - partition_oneway / repair_oneway "
+                 "(and hold / release) are applied to one direction of a link only")
+
+
 def scan_rule(ctx, prop):
     R, table = SCANS[prop]
+    if "turmoil::for_pairs" in table:
+        _pairs_unfiltered(ctx, R)
     ctx.rule(R, "exhaustive scans: each loop of " + ", ".join(f.rsplit("::", 2)[-2] + "::" + f.rsplit("::", 1)[-1] for f in table) +
                 " is left only when its iterator is exhausted (no break / return out of the body) and the iterators are not truncated "
                 "(take / skip / take_while / step_by / nth)")
